@@ -1,4 +1,5 @@
-(* Tie/Maven.v — the generated translation of pkg/ecosystem/maven (Gen/Code/Maven.v) against the
+(* Tie/MavenRange.v — RANGE level (maven has no translated version-level function, so there is
+   no Tie/Maven.v): the generated translation of pkg/ecosystem/maven (Gen/Code/Maven.v) against the
    model (Eco/Maven).  Version.Compare (ComparableVersion items, loops) is outside the translated
    fragment: the interval test is tied generically in it. *)
 From Coq Require Import ZArith List Bool Lia.
